@@ -64,13 +64,14 @@ def endpoint(arr, a, fs, m):
     return float(a + Fraction(m, 4) * fs)
 
 
-def observe(arr, res, raised=""):
+def observe(arr, res, raised="", ends=(0.0, 0.0)):
     cin = [bits(x) for x in arr.coords["x"].data]
+    eb = {"startb": bits(ends[0]), "stopb": bits(ends[1])}          # the interval ends exactly as they were passed
     if res is None:
-        return {"raised": raised, "cin": cin, "cout": [], "lout": [], "data": []}
+        return {"raised": raised, "cin": cin, "cout": [], "lout": [], "data": [], **eb}
     co = np.asarray(res.coords["x"].data, dtype=float)
     return {"raised": "", "cin": cin, "cout": [bits(x) for x in co], "lout": [limbs(x) for x in co],
-            "data": [_d(x) for x in np.asarray(res.data).ravel()]}
+            "data": [_d(x) for x in np.asarray(res.data).ravel()], **eb}
 
 
 def execute(case):
@@ -78,6 +79,9 @@ def execute(case):
         warnings.simplefilter("ignore")
         arr, a, fs = build(case)
         k = case["kind"]
+        ends = (0.0, 0.0)
+        if k in ("crop", "extend"):
+            ends = (endpoint(arr, a, fs, case["ms"]), endpoint(arr, a, fs, case["me"]))
         try:
             if k == "crop":
                 kw = {}
@@ -85,7 +89,7 @@ def execute(case):
                     kw["left_closed"] = False
                 if case["rc"]:
                     kw["right_closed"] = True
-                res = ops.crop_dim(arr, "x", start=endpoint(arr, a, fs, case["ms"]), stop=endpoint(arr, a, fs, case["me"]), **kw)
+                res = ops.crop_dim(arr, "x", start=ends[0], stop=ends[1], **kw)
             elif k == "extend":
                 kw = {}
                 if not case["lc"]:
@@ -94,7 +98,7 @@ def execute(case):
                     kw["right_closed"] = True
                 if case["fill"] != 0:
                     kw["fill_value"] = case["fill"]
-                res = ops.extend_dim(arr, "x", start=endpoint(arr, a, fs, case["ms"]), stop=endpoint(arr, a, fs, case["me"]), **kw)
+                res = ops.extend_dim(arr, "x", start=ends[0], stop=ends[1], **kw)
             elif k == "width":
                 w, n, pos = case["w"], case["n"], case["pos"]
                 kw = {} if pos == "start" and case["fn"] == "direct" else {"position": pos}
@@ -109,8 +113,8 @@ def execute(case):
         except (ValueError, KeyError, IndexError, ArithmeticError) as ex:
             if k not in ("crop", "extend", "width"):
                 raise
-            return observe(arr, None, type(ex).__name__)
-        return observe(arr, res)
+            return observe(arr, None, type(ex).__name__, ends)
+        return observe(arr, res, ends=ends)
 
 
 UNITS = [[1, 1], [1, 10], [1, 4], [1, 3], [1, 100], [2, 1], [1, 2], [250, 1], [1, 8], [1, 7], [3, 10]]
